@@ -13,6 +13,8 @@ RE_EXAMPLES = {
     r"[a-z]+\b": ["foo", "q", "aa", "end"],
     r"0x([0-9a-f]+)": ["0x1f", "0xa"],
     r"[,;]": [",", ";"],
+    r",?": [",", ",", ""],  # separators that may match the empty string ("" = the separator is omitted)
+    r";*": [";", "", ";;"],
 }
 BASE_EXAMPLES = {
     "ID": ["x", "foo", "y1", "_z", "aa", "end", "Foo"],
@@ -36,7 +38,8 @@ def derivations(draw, g):
         if e[0] == "str":
             return [e[1]]
         if e[0] == "re":
-            return [draw(st.sampled_from(RE_EXAMPLES[e[1]]))]
+            t = draw(st.sampled_from(RE_EXAMPLES[e[1]]))
+            return [t] if t else []
         raise ValueError(e)
 
     def d(e, depth):
